@@ -171,8 +171,55 @@ def _plain_encoder(tree, ob):
     ob.require(n >= 5, 'cbor2.dumps calls in the encoding layer: {}'.format(n))
 
 
+def _generic_layer(tree, ob):
+    ''' the pieces of the generic CBOR layer that every structure relies on:
+    * CborItem encodes through the i2m() of its one field and decodes through its m2i() (a Previous Node block is a CborItem
+      with an EID field: without i2m() it leaves as the text "dtn://..." instead of the EID array);
+    * CborArray.do_dissect stores a field when an item was consumed for it, whatever the decoded value (null is a value:
+      judged by "value is not None" a null in place of a default-valued field decodes as the default and re-encodes as it);
+    * the enumeration / flags fields wrap the integer that arrived, nothing else (no fallback to a default). '''
+    from ..cfg import handler_names
+    fb = FuncView(tree, CPKT, 'CborItem.self_build')
+    rets = [r for r in walk_local(fb.func) if isinstance(r, ast.Return) and r.value is not None and not (isinstance(r.value, ast.Constant) and r.value.value is None)]
+    good = [r for r in rets if isinstance(fb.value_at(r.value, r, depth=3), ast.Call) and src(fb.value_at(r.value, r, depth=3)).startswith('self.fields_desc[0].i2m(self, ')]
+    if rets and len(good) == len(rets):
+        ob.site(CPKT, rets[0], 'CborItem.self_build encodes through the i2m() of its field')
+    else:
+        ob.violate(CPKT, fb.qual, src((rets or [fb.func])[0])[:70], 'a CborItem is built from its internal value without the i2m() of its field: an item whose internal form differs from its '
+                   'CBOR form (an EID kept as text) is encoded in the internal form', (rets or [fb.func])[0])
+    fd = FuncView(tree, CPKT, 'CborItem.do_dissect')
+    st = [n for n in walk_local(fd.func) if isinstance(n, ast.Assign) and pm('self.fields[$n]', n.targets[0]) is not None]
+    if st and all('.m2i(self, ' in src(fd.value_at(x.value, x, depth=3)) for x in st):
+        ob.site(CPKT, st[0], 'CborItem.do_dissect decodes through the m2i() of its field')
+    else:
+        ob.violate(CPKT, fd.qual, src((st or [fd.func])[0])[:70], 'a CborItem is dissected without the m2i() of its field', (st or [fd.func])[0])
+    fa = FuncView(tree, CPKT, 'CborArray.do_dissect')
+    stores = [n for n in walk_local(fa.func) if isinstance(n, ast.Assign) and pm('self.fields[$n]', n.targets[0]) is not None]
+    sa_ = one(stores, 'field store in CborArray.do_dissect', ob)
+    facts = fa.facts(sa_) or frozenset()
+    consumed = any(('orig_s' in t and (('==' in t and p_ is False) or ('!=' in t and p_ is True))) for (t, p_) in facts)
+    by_value = any(('data_val' in t) for (t, p_) in facts)
+    if consumed and not by_value:
+        ob.site(CPKT, sa_, 'a field is stored exactly when an item was consumed for it')
+    else:
+        ob.violate(CPKT, fa.qual, src(sa_)[:60] + '  under ' + ', '.join(sorted(t for (t, p_) in facts if 'data_val' in t or 'orig_s' in t))[:60], 'whether a decoded field is stored depends on its value, not on whether an item '
+                   'was consumed: a null item in place of a field with a default decodes as the default and is re-encoded as the default (a corrupted block re-encodes as the original)', sa_)
+    for cname in ('EnumField', 'FlagsField'):
+        fm = FuncView(tree, CFLD, cname + '.m2i')
+        hs = [h for h in walk_local(fm.func) if isinstance(h, ast.ExceptHandler)]
+        dflt = [n for n in walk_local(fm.func) if isinstance(n, ast.Attribute) and n.attr == 'default']
+        if hs or dflt:
+            ob.violate(CFLD, fm.qual, 'except / self.default', '{} replaces a value it does not know by something else (a default) instead of failing the decode: the re-encoded structure carries '
+                       'another value than arrived (an unknown status reason becomes 0)'.format(cname), (hs or dflt)[0])
+        else:
+            ob.site(CFLD, fm.func, cname + '.m2i wraps the integer that arrived or fails')
+
+
 def c02c(tree, ob):
     _plain_encoder(tree, ob)
+    _generic_layer(tree, ob)
+    from .c12 import decode_fails_loudly
+    decode_fails_loudly(tree, ob)
     # field classes: i2m/m2i overridden together
     for rel in (CFLD, FIELDS):
         for node in tree.module(rel).tree.body:
